@@ -169,7 +169,7 @@ USED_LAYERS = set()
 # replay them through Lean's interpreter (`lean --run`) and compare with what the natively compiled driver answered
 DRIVER_SAMPLE = []
 DRIVER_SAMPLE_MAX_LINES = 4000
-DRIVER_SAMPLE_MAX_CONV = 10      # every replay pays the interpreter's start-up (it elaborates Driver/Main.lean)
+DRIVER_SAMPLE_MAX_CONV = 40
 
 
 def interpreter_cross_run():
